@@ -219,7 +219,59 @@ fn e_mac_verify(b: &[u8], k: &K) {
     let _ = o.verify(&mac16);
 }
 
+#[cfg(feature = "nightly")]
+mod ni {
+    use super::*;
+    use dryoc::protected::*;
+    pub fn e_sb_obj_heap(b: &[u8], k: &K) {
+        if let Ok(bx) = DryocSecretBox::<HeapByteArray<16>, HeapBytes>::from_bytes(b) {
+            let _ = bx.decrypt::<HeapBytes, _, _>(&k.nonce, &k.key);
+            let _ = bx.to_bytes::<HeapBytes>();
+        }
+        if let Ok(bx) = DryocSecretBox::<StackByteArray<16>, HeapBytes>::from_bytes(b) {
+            let _ = bx.decrypt::<LockedBytes, _, _>(&k.nonce, &k.key);
+        }
+    }
+    pub fn e_bx_obj_heap(b: &[u8], k: &K) {
+        if let Ok(bx) = DryocBox::<HeapByteArray<32>, HeapByteArray<16>, HeapBytes>::from_bytes(b) {
+            let _ = bx.decrypt::<_, _, _, HeapBytes>(&k.nonce, &k.apk, &k.bsk);
+            let _ = bx.precalc_decrypt::<_, _, LockedBytes>(&k.nonce, &StackByteArray::from(k.precalc));
+        }
+        if let Ok(bx) = DryocBox::<HeapByteArray<32>, HeapByteArray<16>, HeapBytes>::from_sealed_bytes(b) {
+            let kp: KeyPair<StackByteArray<32>, StackByteArray<32>> = KeyPair::from_slices(&k.bpk, &k.bsk).unwrap();
+            let _ = bx.unseal::<_, _, HeapBytes>(&kp);
+        }
+    }
+    pub fn e_sign_obj_heap(b: &[u8], k: &K) {
+        if let Ok(sm) = SignedMessage::<HeapByteArray<64>, HeapBytes>::from_bytes(b) {
+            let _ = sm.verify(&k.spk);
+            let _ = sm.to_bytes::<HeapBytes>();
+        }
+    }
+    pub fn e_stream_obj_heap(b: &[u8], k: &K) {
+        let mut st: DryocStream<Pull> = DryocStream::init_pull(&k.skey, &k.sheader);
+        let mut h = HeapBytes::default();
+        h.resize(b.len(), 0);
+        h.as_mut_slice().copy_from_slice(b);
+        let _ = st.pull::<HeapBytes, HeapBytes>(&h, None);
+        let _ = st.pull::<HeapBytes, LockedBytes>(&h, None);
+    }
+}
+
 fn eps() -> Vec<Ep> {
+    #[allow(unused_mut)]
+    let mut v = eps_stable();
+    #[cfg(feature = "nightly")]
+    {
+        v.push(Ep { name: "DryocSecretBox<Heap..>::from_bytes+decrypt(heap/locked)", overhead: 16, call: ni::e_sb_obj_heap, valid: v_secretbox });
+        v.push(Ep { name: "DryocBox<Heap..>::from_bytes/from_sealed_bytes+decrypt(heap/locked)", overhead: 16, call: ni::e_bx_obj_heap, valid: v_box });
+        v.push(Ep { name: "SignedMessage<Heap..>::from_bytes+verify", overhead: 64, call: ni::e_sign_obj_heap, valid: v_signed });
+        v.push(Ep { name: "DryocStream::pull<HeapBytes,HeapBytes/LockedBytes>", overhead: 17, call: ni::e_stream_obj_heap, valid: v_stream });
+    }
+    v
+}
+
+fn eps_stable() -> Vec<Ep> {
     vec![
         Ep { name: "crypto_secretbox_open_easy", overhead: 16, call: e_sb_open_easy, valid: v_secretbox },
         Ep { name: "crypto_secretbox_open_easy_inplace", overhead: 16, call: e_sb_open_easy_inplace, valid: v_secretbox },
@@ -512,7 +564,8 @@ fn pw_strings(cx: &mut Ctx, idx: &mut u64) {
 }
 
 pub fn run(cx: &mut Ctx) {
-    let list = eps();
+    let only_ni = cx.opt("nightly_forms_only").is_some();
+    let list: Vec<Ep> = eps().into_iter().filter(|e| !only_ni || e.name.contains("Heap")).collect();
     let mut idx = 0u64;
     let mut krng = Rng::new(cx.seed, 0xC04);
     let k = mk_keys(&mut krng);
@@ -577,6 +630,9 @@ pub fn run(cx: &mut Ctx) {
         cx.sample(json!({"family":"length_sweep","entry":"crypto_secretstream_xchacha20poly1305_pull","lengths":"0..=98","classes":classes}));
     }
 
+    if only_ni {
+        return;
+    }
     // (b) authentic stream messages carrying every tag byte, through both pull APIs
     for tag in 0..=255u8 {
         for mlen in [0usize, 1, 16, 65] {
@@ -598,4 +654,44 @@ pub fn run(cx: &mut Ctx) {
 
     // (c) password-hash strings
     pw_strings(cx, &mut idx);
+}
+
+// ---------------------------------------------------------------------------- libFuzzer entry
+
+/// One fuzz input: byte 0 selects the entry-point group (or the password-string family), the rest is the
+/// attacker-controlled input. Panics (the fuzzer's crash signal) on an absurd allocation; a panic inside
+/// dryoc propagates as is.
+pub fn fuzz_one(data: &[u8]) {
+    use std::sync::OnceLock;
+    static KEYS: OnceLock<K> = OnceLock::new();
+    static EPS: OnceLock<Vec<Ep>> = OnceLock::new();
+    let k = KEYS.get_or_init(|| mk_keys(&mut Rng::new(1, 0xC04)));
+    let list = EPS.get_or_init(eps);
+    if data.is_empty() {
+        return;
+    }
+    let sel = data[0] as usize;
+    let input = &data[1..];
+    alloc_reset();
+    if sel < 200 {
+        let ep = &list[sel % list.len()];
+        (ep.call)(input, k);
+        let peak = alloc_max();
+        assert!(peak <= 64 * input.len() + (1 << 20), "absurd allocation of {} bytes in {} for a {}-byte input", peak, ep.name, input.len());
+    } else {
+        let s = String::from_utf8_lossy(input);
+        let bounded = numbers_bounded(&s);
+        let _ = crypto_pwhash_str_needs_rehash(&s, 2, 65536);
+        if let Ok(p) = PwHash::<Vec<u8>, Vec<u8>>::from_string(&s) {
+            let _ = p.to_string();
+            if bounded {
+                let _ = p.verify(&b"password".to_vec());
+            }
+        }
+        if bounded {
+            let _ = crypto_pwhash_str_verify(&s, b"password");
+        }
+        let peak = alloc_max();
+        assert!(peak <= (4 << 20), "absurd allocation of {} bytes while handling a password-hash string", peak);
+    }
 }
